@@ -85,6 +85,11 @@ class SimplePatternMatcher(PatternMatcher):
             return self.fail(
                 f"Value {value.name} is not a constant, expecting {pattern_constant.value}.",
             )
+        if value.is_graph_input():
+            # An initializer that is also a graph input is a default the caller may override.
+            return self.fail(
+                f"Value {value.name} is a graph input, expecting {pattern_constant.value}.",
+            )
 
         try:
             numpy_value = constant_value.numpy()
